@@ -54,7 +54,7 @@ Theorem justified_set_eq r1 r2 e1 e2 best :
   e_fin e1 = e_fin e2 -> e_jc e1 = None -> e_jc e2 = None ->
   snd (justified c r1 e1 best) = snd (justified c r2 e2 best).
 Proof.
-  intros W1 W2 Hset Q1 Q2 Hfin J1 J2. unfold justified. rewrite J1, J2, Hfin.
+  intros W1 W2 Hset Q1 Q2 Hfin J1 J2. unfold justified, justified_gen. rewrite J1, J2, Hfin.
   destruct (b_num best <? L - 1); [reflexivity|].
   set (conc := if b_num best <? storepoint L (b_num best) then checkpoint L (b_num best) - L else checkpoint L (b_num best)).
   unfold block_at. rewrite (chain_of_set_eq r1 r2 (b_id best) W1 W2 Hset).
